@@ -361,12 +361,13 @@ func vRunCompose(n int, funcs []string, floats bool) {
 	rd, rc := D.Result(zctx), C.Result(zctx)
 	same := vSameValue(rd, rc)
 	switch {
+	case nan:
+		// a NaN among the inputs (with or without infinities): the NaN region
+		verif.Assert(same, "compose/nan")
+		verif.Reach("nan")
 	case inf:
 		verif.Assert(same, "compose/inf")
 		verif.Reach("inf")
-	case nan:
-		verif.Assert(same, "compose/nan")
-		verif.Reach("nan")
 	case signed && unsigned:
 		verif.Assert(same, "compose/mixed-sign")
 		verif.Reach("mixed-sign")
